@@ -5,7 +5,8 @@
 // generator: (1) hand-written structurally odd files (0..9 AXIS_DESCR of every attribute and type, empty lists,
 //                missing / empty MOD_PAR), convention and THIS. cases,
 //            (2) seeded fully consistent modules with every reference site of the grammar populated, and for each
-//                of them every single-reference corruption (missing name, and a name of a foreign name space),
+//                of them every single-reference corruption (missing name, a name of a foreign name space, and near misses of the
+//                original target: `<name>.zz`, `<name>[3]`, `<name>_zz`, the name cut short),
 //            (3) seeded structurally odd modules with many dangling references, duplicate names, arbitrary group graphs.
 // oracle:    the property statement over an independent reference-site table (`SITES`, `extract`).
 #![allow(dead_code)]
@@ -1676,6 +1677,14 @@ fn vf_driver_c11() {
             let mut replacements = vec![MISSING.to_string()];
             if !this {
                 replacements.push(foreign_name(site).to_string());
+                // near misses of the ORIGINAL target ("all their single-reference corruptions"): the existing name with a structure
+                // component, an array index, a suffix, and cut short - none of them may be resolved to the object it resembles
+                replacements.push(format!("{orig}.zz"));
+                replacements.push(format!("{orig}[3]"));
+                replacements.push(format!("{orig}_zz"));
+                if orig.len() > 1 && orig.is_char_boundary(orig.len() - 1) {
+                    replacements.push(orig[..orig.len() - 1].to_string());
+                }
             }
             for with in replacements {
                 let (b, _) = gen_module(seed, Corrupt::One(k, with.clone()), false);
